@@ -417,17 +417,24 @@ def digit_class(run, m, F, E):
         w = I.fresh_ptr(st, 'writer')
         v = I.fresh_int(st, int(ty[1:]), 'value')
         outs = I.run(I.start(f, [spec, w, v], st))
-        bad = []
+        bad, und7 = [], []
         for o in outs:
             if o.kind == 'abort':
                 msg = o.info[1] if o.info and o.info[0] == 'assert' else str(o.info)
                 if msg not in CONTRACT:
                     bad.append('"%s" reachable with digit_class=%s' % (msg, o.st.arange('digit_class')))
             for e in o.st.events:
-                if e[0] in ('oob', 'oob?'):
+                if e[0] == 'oob':
                     bad.append('buffer access out of bounds at %s' % loc(m, e[1]))
-        run.ob('R10.3', short(f.dem, 90), not bad, bad[0] if bad else 'no non-contract assertion reachable for any digit class (%d paths)' % len(outs),
-               disc='digit classes %d..%d' % (lo, hi), loc=fn_loc(f))
+                elif e[0] == 'oob?':
+                    # not provably inside: a finding only with a model of the path (a real value / digit class), else undecided
+                    env = e[6] if len(e) > 6 else None
+                    if env is not None:
+                        bad.append('buffer access out of bounds at %s; witness %s' % (loc(m, e[1]), own.fmt_env(env)))
+                    else:
+                        und7.append('a buffer access at %s is not decided to lie inside its object' % loc(m, e[1]))
+        run.ob('R10.3', short(f.dem, 90), False if bad else (None if und7 else True), bad[0] if bad else (und7[0] if und7 else
+               'no non-contract assertion reachable for any digit class (%d paths)' % len(outs)), disc='digit classes %d..%d' % (lo, hi), loc=fn_loc(f))
     # parse_format stores only enumerators into digit_class
     pf = [m.func(x) for x in F.lib if m.func(x).dem == 'ST::format_writer::parse_format()']
     run.need(pf, 'parse_format not found')
